@@ -52,6 +52,9 @@ def parseObs (rhs : Tok) : Option Obs :=
     else if t0.startsWith "err:" then some { status := .err, cls := (t0.drop 4).toString, alloc := a, stack := s }
     else if t0 = "ok" then
       match splitBar rest with
+      -- the worker does not transport the result of a call that allocated more than 16 MiB (more
+      -- than the Spec allows for ANY input of at most 64 KiB); the allocation clause decides
+      | [_, ["big"]] => some { status := .ok, alloc := a, stack := s }
       | _ :: g :: res =>
         match Proto.pGeom 100000 g, res.mapM parseRe with
         | some (g, _), some rs => some { status := .ok, alloc := a, stack := s, geom := some g, res := rs }
@@ -205,7 +208,7 @@ def parseCase (lhs : Tok) : Option Case :=
   | ["json", h] => (hexToBytes (h.drop 1).toString).map fun bs => ⟨"json", .json, bs.length, predJ (decodeJSON bs), false⟩
   | ["gj", "NILPTR"] => some ⟨"gj", .value, 1, predJ (fromGeoJSON none), false⟩
   | "gj" :: t :: v =>
-    match hexStrTok (t.drop 1).toString, pGoVal 100 v with
+    match hexStrTok (t.drop 1).toString, pGoVal 100000 v with
     | some typ, some (raw, _) =>
       let c := unfold 12 [] raw
       some ⟨"gj", .value, c.size, predJ (fromGeoJSON (some (typ, c))), hasNonFinite c⟩
@@ -303,6 +306,8 @@ def statusName : Status → String
 
 def judgeLine (line : String) : String :=
   let (lhs, rhs) := splitArrow (tokens line)
+  -- not run: the supervisor stops after 25 worker deaths (each of them a SPEC verdict above this line)
+  if rhs == ["skipped"] then "OK skipped" else
   if lhs.head? == some "batch" then judgeBatch lhs rhs else
   match parseCase lhs, parseObs rhs with
   | none, _ => "DIFF bad-line unparsable-input"
